@@ -125,7 +125,9 @@ def sched_program(rng, provider, ternary):
     def inputs(rng):
         n = rng.choice([3, 4, 5, 6])                 # element domain
         nk = rng.choice([1, 2, 3, 3, 5, 9, 17]) if ternary else 1
-        shape = rng.choice(['chain', 'cycle', 'random', 'merge', 'pause', 'selfloop', 'dense'] + (['fanout', 'samefact'] if ternary else []))
+        shape = rng.choice(['chain', 'cycle', 'random', 'merge', 'pause', 'selfloop', 'dense', 'chainmerge'] + (['fanout', 'samefact'] if ternary else []))
+        if shape == 'chainmerge' and n < 6:
+            n = 6
         facts = []                                   # facts to be inserted in order, one per iteration
 
         def fact(k, x, y):
@@ -144,6 +146,13 @@ def sched_program(rng, provider, ternary):
             # key 0 active, then silent while key 1 is active, then active again (F4 / F6 region)
             k1 = 1 if nk > 1 else 0
             facts = [fact(0, 0, 1), fact(k1, 0, 1), fact(k1, 1, 2), fact(k1, 2, 0), fact(0, 1, 2), fact(0, 2, 3 % n)]
+        elif shape == 'chainmerge' and n >= 6:
+            # three classes from earlier iterations; then two of them are joined, later the third: a chain of two absorptions whose
+            # innermost members are not mentioned again (either orientation of each joining fact)
+            k0 = rng.randrange(nk)
+            j1 = (2, 4) if rng.random() < 0.5 else (4, 2)
+            j2 = (0, 2) if rng.random() < 0.5 else (2, 0)
+            facts = [fact(k0, 0, 1), fact(k0, 2, 3), fact(k0, 4, 5), fact(k0, *j1), fact(k0, *j2)]
         elif shape == 'fanout':
             # an element known under one key turns up, within a single later iteration, under several other keys at once
             e = rng.randrange(n)
